@@ -13,12 +13,13 @@
 
   Not in the model (checked on the implementation by harness/props/C20.py): comparison with
   non-components, the letter case of property names (keys are upper-cased by
-  CaselessDict.__setitem__ before they reach the tree), and that deepcopy / pickle /
-  from_ical(to_ical()) reproduce the attribute state — a copy with the same state is the same
-  tree, which is `==` by `eq_refl` and serialises identically because serialisation is a function
-  of the tree.
+  CaselessDict.__setitem__ before they reach the tree), and that deepcopy / pickle reproduce the
+  attribute state — a copy with the same state is the same tree, which is `==` by `eq_refl` and
+  serialises identically because serialisation is a function of the tree.  The
+  serialise-and-parse copy is a theorem of the model (`reparse_eq`, on the domain of C01).
 -/
 import ICal.Lemmas.CompEq
+import ICal.Props.C01
 namespace ICal.C20
 
 /-! ### traversal -/
@@ -183,6 +184,27 @@ theorem eq_distinguishes_multiplicity (veq : Val → Val → Bool) (hr : ∀ v, 
   have hee := eq_refl veq hr e we
   simp [Comp.subs, greedy, removeFirst, hee, hef]
 
+/-! ### the serialise-and-parse copy -/
+
+/-- For every tree of C01's domain (names upper-case and escape-free, property names pairwise
+    distinct, entries and values the parser can reproduce, VTIMEZONEs the parser can cache, items
+    that make well-formed content lines): `to_ical()` succeeds, `from_ical` of its output returns
+    exactly one component and no error, and that component is `==` to the original in both
+    directions (for any reflexive value equality) and serialises to the same text.  The parsed
+    tree differs from the original only in the insertion order of the properties of each
+    component. -/
+theorem reparse_eq (veq : Val → Val → Bool) (hr : ∀ v, veq v v = true)
+    (tzok : Comp → Bool) (dec : Dec) (t : Comp)
+    (hwf : WF dec t) (htz : TzOK tzok true t) (h : ∀ it ∈ items true t, ICal.C01.ItemOK it) :
+    ∃ text t', toIcal true t = .ok text ∧ parseText tzok dec false text = some ([t'], []) ∧
+      compEq veq t t' = true ∧ compEq veq t' t = true ∧ toIcal true t' = .ok text := by
+  obtain ⟨text, h1, h2⟩ := ICal.C01.parse_toIcal tzok dec t hwf htz h
+  have hw : Comp.WF t := compWF_of_WF dec t hwf
+  have he := compEq_sortedTree veq true hr t hw
+  refine ⟨text, sortedTree true t, h1, h2, he.1, he.2, ?_⟩
+  rw [← h1]
+  simp only [toIcal, contentLines, items_sortedTree]
+
 /-- the structural value equality used by the driver is an equivalence relation, so the
     hypotheses above are satisfiable -/
 theorem veqStructural_equiv : VEquiv veqStructural := by
@@ -219,6 +241,27 @@ example : compEq veqStructural (.mk VEVENT [] [ev "a", ev "a"]) (.mk VEVENT [] [
 example : compEq veqStructural
     (.mk VEVENT [{ name := "ATTENDEE".toList, isList := true, vals := [tv "a"] }] [])
     (.mk VEVENT [{ name := "ATTENDEE".toList, isList := false, vals := [tv "a"] }] []) = false := by decide
+
+/-- `reparse_eq` applies to a tree whose entries the serialiser reorders (ATTENDEE was inserted
+    before SUMMARY; SUMMARY is in VEVENT's canonical order): the hypotheses hold, the parsed tree
+    has another entry order, and it is equal to the original both ways. -/
+private def rsample : Comp :=
+  .mk "VCALENDAR".toList [{ name := "VERSION".toList, isList := false, vals := [tv "2.0"] }]
+    [.mk VEVENT
+      [{ name := "ATTENDEE".toList, isList := true,
+         vals := [{ kind := "vCalAddress".toList, text := "mailto:a@example.com".toList,
+                    params := [("CN".toList, .one "A, B".toList)] },
+                  { kind := "vCalAddress".toList, text := "mailto:b@example.com".toList, params := [] }] },
+       { name := "SUMMARY".toList, isList := false, vals := [tv "x"] }]
+      [.mk "VALARM".toList [{ name := "ACTION".toList, isList := false, vals := [tv "DISPLAY"] }] []]]
+example : ∃ text t', toIcal true rsample = .ok text ∧
+    parseText (fun _ => true) (fun _ t _ => some t) false text = some ([t'], []) ∧
+    compEq veqStructural rsample t' = true ∧ compEq veqStructural t' rsample = true ∧
+    toIcal true t' = .ok text :=
+  reparse_eq veqStructural veqStructural_equiv.refl (fun _ => true) (fun _ t _ => some t) rsample
+    (by simp only [rsample, WF, WFs, and_true]; decide) (TzOK_true true rsample) (by decide +kernel)
+example : (sortedTree true rsample).subs.map (fun c => c.props.map (·.name)) =
+    [["SUMMARY".toList, "ATTENDEE".toList]] := by decide +kernel
 
 end examples
 
